@@ -53,7 +53,7 @@ impl HG for G2Projective {
     fn enc(book: &Book, d: &Scalar) -> Vec<u8> { wire::enc_g2(book, d) }
 }
 
-fn params_from<G: HG, const N: usize>(book: &Book, h: &Scalar, gs: &[Scalar]) -> PedersenParameters<G, N> {
+pub fn params_from<G: HG, const N: usize>(book: &Book, h: &Scalar, gs: &[Scalar]) -> PedersenParameters<G, N> {
     let mut a = [G::identity(); N];
     for (x, d) in a.iter_mut().zip(gs) {
         *x = G::mat(book, d);
